@@ -158,6 +158,12 @@ def ctr_lines(rnd, n, big):
                 L.append("ctr %s %d %s %d pattern:%d %d %d" % (hx(rbytes(rnd, rnd.choice([16, 32]))), rnd.getrandbits(64), ",".join(str(x) for x in (hdr, ln) if x or x == hdr),
                                                              rnd.randint(0, 1), hdr + ln, rnd.randrange(16), ao))
     # long streams carrying the block counter across byte boundaries: 256 and 65536 blocks
+    # a run of whole blocks that ends exactly where the counter carries (4 KiB, 64 KiB, 1 MiB), then a few bytes: in the same call and
+    # in the next one
+    for edge in (4096, 65536, 1048576):
+        for tail in (5, 15):
+            for calls in ([edge + tail], [edge, tail], [16, edge - 16, tail]):
+                L.append("ctr %s %d %s %d pattern:%d" % (hx(rbytes(rnd, rnd.choice([16, 32]))), rnd.getrandbits(64), ",".join(map(str, calls)), rnd.randint(0, 1), edge + tail))
     for ln, reps in ((4096 + 48, big), (65536 + 80, big), (1048576 + 64, max(1, big // 2))):
         for rep in range(max(reps, 5)):
             style = ["one", "small", "mixed", "sub", "edge"][rep % 5]         # every style at least once per stream length
